@@ -293,6 +293,48 @@ GTEnc(t) ==
       ELSE <<IF t[7] < 0 THEN 45 ELSE 43>> \o Two(a \div 3600) \o Two((a % 3600) \div 60))
 
 ----------------------------------------------------------------------------
+(* UTCTime: YYMMDDhhmm[ss] followed by Z or a non-zero +hhmm / -hhmm.  Not part of
+   the C19 statement; specified for C20 (both modes must decode a strictly valid
+   UTCTime to the same instant) and as growth of C19:
+     year window   YY >= 50 -> 19YY, YY < 50 -> 20YY  (RFC 5280, 4.1.2.5.1; both codecs)
+     "a"  the form with seconds (the form both libraries write),
+     "o"  the form without seconds: both libraries document that they accept it,
+          although it cannot re-encode to itself (nore = TRUE: no re-encoding demanded),
+     "r"  everything else.                                                          *)
+UTInfo(c) ==
+  LET n     == Len(c)
+      secs  == n \in {13, 17}                       \* seconds present
+      dl    == IF secs THEN 12 ELSE 10              \* number of leading digits
+      shape == n \in {11, 13, 15, 17} /\ \A i \in 1..dl : IsDigit(c[i])
+      zed   == shape /\ n = dl + 1 /\ c[n] = 90
+      off   == shape /\ n = dl + 5 /\ c[dl + 1] \in {43, 45} /\ \A i \in (dl + 2)..n : IsDigit(c[i])
+      yy == D2(c, 1)
+      Y  == IF yy >= 50 THEN 1900 + yy ELSE 2000 + yy
+      Mo == D2(c, 3)
+      Dd == D2(c, 5)
+      hh == D2(c, 7)
+      mi == D2(c, 9)
+      ss == IF secs THEN D2(c, 11) ELSE 0
+      dateok == /\ Mo \in 1..12 /\ Dd >= 1 /\ Dd <= DaysIn(Y, Mo)
+                /\ hh <= 23 /\ mi <= 59 /\ ss <= 59
+      zh == D2(c, dl + 2)
+      zm == D2(c, dl + 4)
+      offsec == IF off THEN (IF c[dl + 1] = 45 THEN -1 ELSE 1) * (zh * 3600 + zm * 60) ELSE 0
+      v == IF ~(zed \/ off) THEN "r"
+           ELSE IF ~dateok THEN "r"
+           ELSE IF off /\ (zm >= 60 \/ offsec = 0) THEN "r"
+           ELSE IF off /\ zh > 23 THEN "o"
+           ELSE IF secs THEN "a" ELSE "o"
+  IN [v |-> v, nore |-> v # "r" /\ ~secs,
+      why |-> IF v # "r" THEN ""
+              ELSE IF ~(zed \/ off) THEN "time-shape"
+              ELSE IF ~dateok THEN "time-field-range" ELSE "time-offset-noncanonical",
+      t |-> IF v = "r" THEN <<>> ELSE <<Y, Mo, Dd, hh, mi, ss, offsec>>]
+\* the encoding both libraries write (always with seconds); Y in 1950..2049
+UTEnc(t) == DDrop(GTEnc(t), 2)
+UTRoundTrip(c) == LET u == UTInfo(c) IN (u.v # "r" /\ ~u.nore) => UTEnc(u.t) = c
+
+----------------------------------------------------------------------------
 (* Judgements (C19 A layer).  s = complete input (element followed by any
    trailing bytes), tagbyte = the single identifier octet the reader expects. *)
 
@@ -349,6 +391,11 @@ TimeJudgeF(f, g) ==
   ELSE IF g.v = "r" THEN Rej(g.why) ELSE [v |-> g.v, why |-> "", n |-> f.n]
 TimeJudge(s, tagbyte) == LET f == Framed(s, tagbyte) IN TimeJudgeF(f, GTInfo(f.c))
 TimeValue(s, tagbyte) == GTInfo(Framed(s, tagbyte).c).t
+
+\* u == UTInfo(f.c)
+UTimeJudgeF(f, u) ==
+  IF ~f.ok THEN Rej(f.why)
+  ELSE IF u.v = "r" THEN Rej(u.why) ELSE [v |-> u.v, why |-> "", n |-> f.n]
 
 (* Any element (tag / length header).  cls "ANY31": all classes, tag numbers
    < 2^31 supported (asn1.RawValue);  "LOW": single identifier octet only
